@@ -126,6 +126,7 @@ def run(ctx) -> None:
     rep.add("C06.R3", f"{mtf.qname}:delegates", ok, mtf.loc(), "delegates to node.map_inputs_to_params(inputs)" if ok else "helper no longer delegates to the node's own translator")
 
     # ---- R4 ---------------------------------------------------------------------
+    check_renames_reject_duplicates(ctx, "C06.R5")
     check_map_lists_follow_renames(ctx, "C06.R4")
     from .c10 import check_map_over_order_kept
 
@@ -243,6 +244,35 @@ def check_inversions_over_current_names(ctx, rule: str) -> None:
                 rep.add(rule, f"{f.qname}", filt, f"{f.module.rel}:{n.lineno}", "inversion is restricted to the node's current names" if filt else "inverts the reverse rename map including abandoned intermediate names: after r->x, x->z, z->x the stale entry wins and values are published under a name the node no longer has")
     if n_inv == 0:
         rep.ok(rule, "no-inversion-sites", "src/hypergraph/nodes:1", "no function inverts a reverse rename map (positive example checked in the self-test)")
+
+
+def check_renames_reject_duplicates(ctx, rule: str) -> None:
+    """Wherever a tuple of input/output names is rewritten through a rename mapping (``tuple(m.get(v, v) for v in names)``),
+    the result is tested for duplicates before it is stored or returned: two parameters under one external name make the
+    supplied value reach only one of them (the other silently takes its default)."""
+    db, rep = ctx.db, ctx.rep
+    n = 0
+    for f in db.funcs_in("nodes"):
+        for x in walk_local(f.node):
+            if not (isinstance(x, ast.Call) and (dotted(x.func) or "") == "tuple" and len(x.args) == 1 and isinstance(x.args[0], ast.GeneratorExp)):
+                continue
+            g = x.args[0]
+            e = g.elt
+            if not (isinstance(e, ast.Call) and isinstance(e.func, ast.Attribute) and e.func.attr == "get" and len(e.args) == 2 and isinstance(g.generators[0].target, ast.Name) and all(isinstance(a, ast.Name) and a.id == g.generators[0].target.id for a in e.args)):
+                continue
+            n += 1
+            par = getattr(x, "_parent", None)
+            rv = par.targets[0].id if isinstance(par, ast.Assign) and isinstance(par.targets[0], ast.Name) else None
+            checked = False
+            if rv is not None:
+                for y in walk_local(f.node):
+                    if isinstance(y, ast.Call) and "_check_rename_duplicates" in call_names(db, y, f) and y.args and src(y.args[0]) == rv:
+                        checked = True
+                    if isinstance(y, ast.Compare) and f"len(set({rv}))" in src(y) and f"len({rv})" in src(y).replace(f"len(set({rv}))", ""):
+                        checked = any(isinstance(z, ast.Raise) for a in ancestors(y) if isinstance(a, ast.If) for z in ast.walk(a)) or checked
+            rep.add(rule, f"{f.qname}:renamed-names-unique", checked, f"{f.module.rel}:{x.lineno}", "the renamed tuple is tested for duplicates before use" if checked else f"'{src(x)[:60]}' is used without a duplicate test: a constructor-time rename_inputs={{'a': 'b'}} on f(a, b=5) gives inputs ('b', 'b') — the node and the graph are accepted, a supplied b reaches only one of the two parameters and the other silently takes its default (with_inputs rejects the same rename)")
+    if n < 2:
+        raise AnalysisError(f"only {n} rename application sites found")
 
 
 def check_translators_reach_resolver(ctx, rule: str, only_class: str | None = None) -> None:
